@@ -177,7 +177,7 @@ def run(ctx, build):
             ctx.violation('spec/geometry', f'specification geometry {geom} differs from the formatter', info)
         mem = bytearray(img)
         try:
-            with warnings.catch_warnings():
+            with lib.time_limit(90, 'reading one volume through the path API'), warnings.catch_warnings():
                 warnings.simplefilter('ignore')
                 fs = FatFileSystem(memoryview(mem))
                 try:
@@ -209,6 +209,9 @@ def run(ctx, build):
                             seek_read_script(ctx, rng, fs, path, nd['data'], info)
                 finally:
                     fs.close()
+        except lib.Hang as e:
+            ctx.violation('fs.read/did-not-terminate', f'reading a well-formed {g.fat_type} volume: {e}', info)
+            break               # do not wait for the same hang on every further volume
         except Exception as e:
             ctx.violation('fs.read/exception', f'reading a well-formed {g.fat_type} volume raised {type(e).__name__}: {e}', info)
         if bytes(mem) != img:
@@ -281,14 +284,7 @@ def seek_read_script(ctx, rng, fs, path, content, info):
 
 def model_correspondence(ctx):
     """differential runs of the extracted Coq models of this property's cores against the real classes"""
-    import fat_table_corr
-    lib.corr_run(ctx, fat_table_corr)
-    SPEC['theorems'].update(getattr(fat_table_corr, 'SPEC_THEOREMS', {}))
-    SPEC['trusted_base'].extend(x for x in getattr(fat_table_corr, 'TRUSTED', []) if x not in SPEC['trusted_base'])
-    import fat_read_corr
-    lib.corr_run(ctx, fat_read_corr)
-    SPEC['theorems'].update(getattr(fat_read_corr, 'SPEC_THEOREMS', {}))
-    SPEC['trusted_base'].extend(x for x in getattr(fat_read_corr, 'TRUSTED', []) if x not in SPEC['trusted_base'])
+    lib.corr_modules(ctx, SPEC, ['fat_table_corr', 'fat_read_corr', 'fat_dir_corr'])
 
 
 def replay(ctx, obj):
